@@ -29,6 +29,19 @@
 (*       values beyond 2*sum(pts) are ignored by a product measure and     *)
 (*       overwrite the leading values of a scenario.                       *)
 (*                                                                         *)
+(* OBJECT IDENTITY                                                         *)
+(*   pm is the DENOTATION of a product: the sequence of the CONTENTS of its *)
+(*   slots.  The implementation holds measure objects and the same object  *)
+(*   may sit in several slots (product_measure([m, m])); nothing stated    *)
+(*   here depends on that: every observable (Obs) is a function of pm, and *)
+(*   update / load replace resp. append slots by NEWLY BUILT measures --   *)
+(*   they never write into a measure that existed before (one a caller may *)
+(*   still hold), so UpdatePM / LoadPM give the successor whatever the     *)
+(*   sharing was.  Assignments through a factor (weight, positions,        *)
+(*   center_mass, ...) edit that OBJECT.  MeasureAlias.tla adds the heap   *)
+(*   (heap, refs) and checks this refinement: Denotes, UpdateFresh,        *)
+(*   ObjectEdit, UnsharedIsMeasures.  Den below is the denotation map.     *)
+(*                                                                         *)
 (* One action per public call: Load, Append (= load on a non-empty         *)
 (* object), Update, SetWeight, SetPosition, SetCenterMass, SetRange,       *)
 (* SetVar.  Rationals are <<num, den>> in lowest terms, den > 0; UNDEF =   *)
@@ -69,6 +82,9 @@ GCD(a, b) == IF b = 0 THEN a ELSE GCD(b, a % b)
 MaxOf(S) == CHOOSE x \in S : \A y \in S : y <= x
 MinOf(S) == CHOOSE x \in S : \A y \in S : x <= y
 Range1(s) == {s[i] : i \in 1..Len(s)}
+
+(* the denotation of a product held as object references: slot m shows the content of object refs[m] *)
+Den(objects, slots) == [m \in 1..Len(slots) |-> objects[slots[m]]]
 
 (* n/d in lowest terms with positive denominator; UNDEF when d = 0 *)
 Rat(n, d) == IF d = 0 THEN UNDEF
